@@ -953,5 +953,68 @@ pub fn check_all(m: &PModel, s: &SSolution) -> (Vec<Issue>, Probes) {
         }
     }
     check_solution_level(m, s, &mut out, &mut probes);
+    check_relations(m, s, &mut out, &mut probes);
     (out, probes)
+}
+
+const RESERVED: [&str; 5] = ["departure", "arrival", "break", "reload", "recharge"];
+
+/// Relation pinning (C01): vehicle shift, order, contiguity, departure/arrival anchoring, as the documentation of
+/// `plan.relations` states them. Judged on the reported activity id sequence of the tours only.
+///  * every kind: no job of the relation is served by a tour of another vehicle shift (jobs of an `any` relation may be
+///    unassigned: they are bound to the vehicle, not to the solution);
+///  * `sequence`: the tour of that vehicle shift exists and its activity ids restricted to the ids of the relation are
+///    exactly the relation's list (order kept, other jobs may sit in between);
+///  * `strict`: the relation's list occurs as one contiguous block of the tour's activity ids (nothing in between; with
+///    `departure` first / `arrival` last the block is anchored at the respective end of the tour).
+pub fn check_relations(m: &PModel, s: &SSolution, out: &mut Vec<Issue>, probes: &mut Probes) {
+    const F: &str = "C01";
+    let ids_of = |t: &STour| -> Vec<String> { t.stops.iter().flat_map(|st| st.acts.iter().map(|a| a.job_id.clone())).collect() };
+    for (ri, r) in m.relations.iter().enumerate() {
+        probes.relations_checked += 1;
+        let wanted: BTreeSet<&str> = r.jobs.iter().map(|j| j.as_str()).collect();
+        let job_ids: BTreeSet<&str> = wanted.iter().copied().filter(|j| !RESERVED.contains(j)).collect();
+        let tag: &'static str = match r.kind.as_str() {
+            "any" => "relation-any",
+            "sequence" => "relation-sequence",
+            _ => "relation-strict",
+        };
+        let mut own: Option<&STour> = None;
+        for (ti, t) in s.tours.iter().enumerate() {
+            if t.vehicle_id == r.vehicle_id && t.shift_index == r.shift_index {
+                own = Some(t);
+                continue;
+            }
+            if let Some(a) = t.stops.iter().flat_map(|st| st.acts.iter()).find(|a| job_ids.contains(a.job_id.as_str())) {
+                out.push(Issue { prop: F, rule: "relation-vehicle", tag, msg: format!("relation {ri} ({}) binds job '{}' to {}/{} but tour {ti} of {}/{} serves it", r.kind, a.job_id, r.vehicle_id, r.shift_index, t.vehicle_id, t.shift_index) });
+            }
+        }
+        if r.kind == "any" {
+            continue;
+        }
+        let ids = match own {
+            Some(t) => ids_of(t),
+            None => {
+                out.push(Issue { prop: F, rule: "relation-missing", tag, msg: format!("relation {ri} ({}) pins jobs {:?} to {}/{} which drives no tour", r.kind, r.jobs, r.vehicle_id, r.shift_index) });
+                continue;
+            }
+        };
+        let restricted: Vec<&str> = ids.iter().map(|i| i.as_str()).filter(|i| wanted.contains(i)).collect();
+        let listed: Vec<&str> = r.jobs.iter().map(|j| j.as_str()).collect();
+        if restricted != listed {
+            let mut a = restricted.clone();
+            let mut b = listed.clone();
+            a.sort();
+            b.sort();
+            let rule = if a == b { "relation-order" } else { "relation-missing" };
+            out.push(Issue { prop: F, rule, tag, msg: format!("relation {ri} ({}) lists {:?} for {}/{}, the tour has them as {:?} (tour: {:?})", r.kind, listed, r.vehicle_id, r.shift_index, restricted, ids) });
+            continue;
+        }
+        if r.kind == "strict" {
+            let contiguous = !listed.is_empty() && ids.windows(listed.len()).any(|w| w.iter().map(|x| x.as_str()).eq(listed.iter().copied()));
+            if !contiguous {
+                out.push(Issue { prop: F, rule: "relation-contiguity", tag, msg: format!("strict relation {ri} lists {:?} for {}/{}, the tour {:?} does not contain them as one block", listed, r.vehicle_id, r.shift_index, ids) });
+            }
+        }
+    }
 }
